@@ -616,8 +616,10 @@ def run(ctx):
     h4, e4, d4 = search_wscale(ctx, rng, (200 if ctx.quick else 2500) * mult)
     dfails, e5, d5 = L.dtype_search(rng, (150 if ctx.quick else 2000) * mult, 'representations', 'C15')
     h5 = [Hit('dtype-independence', k_, 'cossin / harmonics / Ibeta / helpers: ' + w_, sn_, da_) for (k_, w_, sn_, da_) in dfails]
+    lfails, e6, d6 = L.layout_search(rng, (150 if ctx.quick else 2000) * mult, 'representations', 'C15')
+    h5 += [Hit('layout-independence', k_, 'cossin / harmonics / Ibeta / helpers: ' + w_, sn_, da_) for (k_, w_, sn_, da_) in lfails]
     h2 = h2 + h3 + h4 + h5
-    e2, d2 = e2 + e3 + e4 + e5, d2 + d3 + d4 + d5
+    e2, d2 = e2 + e3 + e4 + e5 + e6, d2 + d3 + d4 + d5 + d6
     ctx.cov.update(evaluations=e1 + e2 + n_cases, distinct_nontrivial=d1 + d2,
                    rule='search 1: random coefficient arrays for each of the 18 (order, parity) cases, the four '
                         'representations evaluated at 7 random angles (tolerance 1e-9 relative to the coefficient sum); '
@@ -629,7 +631,8 @@ def run(ctx):
                         'unchanged, beta_n = P_n/P_0 exactly wherever P_0 != 0, rIbeta and the module-level Ibeta/rIbeta/harmonics/'
                         'rharmonics helpers agree with the object; search 4: all weights times 2^k, |k| <= 300: every representation unchanged, bit '
                         'for bit for N <= 3, to rounding at radii with cond <= 1e6 for N > 3; search 5: dtype independence of cossin / '
-                        'harmonics / Ibeta / rIbeta / helpers for integer (8..64 bit) and float32 images and weights up to the type extremes',
+                        'harmonics / Ibeta / rIbeta / helpers for integer (8..64 bit) and float32 images and weights up to the type extremes; '
+                        'search 6: memory-layout independence (Fortran order, transposed / strided / negative-stride views, read-only), bit for bit',
                    samples=samples, exhaustive=False)
     new, seen = 0, set()
     for h in h0 + h1 + h2:
